@@ -342,6 +342,13 @@ func (st *state) hook(c *netctl.Conn, dir string, key, ver int16, frame []byte) 
 	}
 	switch r := kresp.(type) {
 	case *kmsg.ShareFetchResponse:
+		if x.Debug {
+			for _, t := range r.Topics {
+				for _, pt := range t.Partitions {
+					x.Logf("  ShareFetch response to %s: top=%d partition %d err=%d ackerr=%d acquired=%v bytes=%d", m.name, r.ErrorCode, pt.Partition, pt.ErrorCode, pt.AcknowledgeErrorCode, pt.AcquiredRecords, len(pt.Records))
+				}
+			}
+		}
 		var perr int16
 		found := false
 		for _, t := range r.Topics {
@@ -747,6 +754,10 @@ func scenario(v variant) *netctl.Scenario {
 				p2 := a.poll(ctx, v.pollMax)
 				cancel()
 				t.Step("mark2")
+				if len(p2) > 0 { // renew immediately followed by the terminal: two queue entries of one record in one drain
+					a.ack(p2[0], kgo.AckRenew)
+					a.ack(p2[0], kgo.AckAccept)
+				}
 				if len(p2) > 1 {
 					a.mark(kgo.AckReject, p2[1])
 				}
